@@ -1312,6 +1312,9 @@ fn final_check(plan: &Plan, store: &Store, committed: &[u64], when: &str) -> PRe
 }
 
 /// body of the child process `gv child x C18 conc <plan.json> <dir> <out.json>`
+static WARM_ACTIVE: AtomicBool = AtomicBool::new(false);
+static REPORT_PATH: std::sync::OnceLock<PathBuf> = std::sync::OnceLock::new();
+
 fn conc_child(plan: &Plan, dir: &Path) -> Value {
 	let harness = |m: String| json!({"status": "harness", "msg": m});
 	let failv = |f: &Fail, stats: Value| json!({"status": "fail", "sig": f.sig, "msg": f.msg, "stats": stats});
@@ -1353,6 +1356,31 @@ fn conc_child(plan: &Plan, dir: &Path) -> Value {
 		payload: AtomicU64::new(0),
 	});
 	let mut map_sizes = vec![map0];
+	// the warm-up runs on this thread: a store call of it that never returns cannot be reported by
+	// this thread — a monitor writes the report (same rule as the concurrent phase: inside ONE store
+	// call for more than 30 s) and ends the process
+	WARM_ACTIVE.store(true, Ordering::SeqCst);
+	{
+		let sh = sh.clone();
+		std::thread::spawn(move || {
+			while WARM_ACTIVE.load(Ordering::SeqCst) {
+				std::thread::sleep(Duration::from_millis(250));
+				let s = &sh.slots[0];
+				let op = s.op.load(Ordering::SeqCst);
+				let age = (sh.t0.elapsed().as_millis() as u64).saturating_sub(s.since_ms.load(Ordering::SeqCst));
+				if WARM_ACTIVE.load(Ordering::SeqCst) && op != 0 && age > 30_000 {
+					let rep = json!({"status": "fail", "sig": "conc-stall", "msg": format!("single-threaded warm-up (scan-and-rewrite mode {}): {} has not returned for {} ms (call #{}; map size {})", sh.plan.warm_hold, OPS[op], age, s.calls.load(Ordering::Relaxed), sh.map_now.load(Ordering::Relaxed)), "stats": {"phase": "warm-up"}});
+					if let Some(out) = REPORT_PATH.get() {
+						let tmp = PathBuf::from(format!("{}.tmp", out.display()));
+						if std::fs::write(&tmp, serde_json::to_string(&rep).unwrap()).is_ok() {
+							let _ = std::fs::rename(&tmp, out);
+						}
+					}
+					std::process::exit(0);
+				}
+			}
+		});
+	}
 	// ---- warm-up (single thread): the map starts at LMDB's default 1 MiB and
 	// maybe_resize only guarantees 10 % of it as headroom when a batch is
 	// opened, so batches stay below map/40 until the map is large enough for
@@ -1384,7 +1412,10 @@ fn conc_child(plan: &Plan, dir: &Path) -> Value {
 		let hold = plan.warm_hold == 1 || (plan.warm_hold == 2 && warm % 2 == 0);
 		let mut held: Option<DatabaseIterator<'static, ItemFn, Item>> = None;
 		if hold {
-			match store.iter(dbk(gkey_db(g, 0)), item_of as ItemFn) {
+			sh.enter(0, 5);
+			let opened = store.iter(dbk(gkey_db(g, 0)), item_of as ItemFn);
+			sh.leave(0);
+			match opened {
 				Ok(mut it) => {
 					let _ = it.next();
 					held = Some(it);
@@ -1394,6 +1425,34 @@ fn conc_child(plan: &Plan, dir: &Path) -> Value {
 			warm_held += 1;
 		}
 		let r = do_batch(&sh, &store, 0, g, payload, rng.below(10));
+		if held.is_some() && r.is_ok() {
+			// still under the open iterator, after the nested batch has ended: two further nested
+			// operations of the same thread (a read and an existence test of what was just committed)
+			let committed = sh.committed[g].load(Ordering::SeqCst);
+			if committed > 0 {
+				let k = gkey(g, 0);
+				sh.enter(0, 7);
+				let got = store.get_ser::<Vec<u8>>(dbk(gkey_db(g, 0)), &k, None);
+				sh.leave(0);
+				match got {
+					Ok(v) => {
+						let mut ls = 0;
+						if let Err(f) = check_one(g, "Store::get_ser (warm-up, under the held iterator after a nested batch)", v.as_deref(), committed, committed, &mut ls, "main") {
+							return failv(&f, json!({"phase": "warm-up"}));
+						}
+					}
+					Err(e) => return failv(&dberr("conc", "Store::get_ser (warm-up)", e), json!({"phase": "warm-up"})),
+				}
+				sh.enter(0, 8);
+				let ex = store.exists(dbk(gkey_db(g, 0)), &k);
+				sh.leave(0);
+				match ex {
+					Ok(true) => {}
+					Ok(false) => return failv(&Fail::new("conc:committed-write-not-visible", "warm-up: Store::exists says a just-committed key does not exist (under a held iterator)".to_string()), json!({"phase": "warm-up"})),
+					Err(e) => return failv(&dberr("conc", "Store::exists (warm-up)", e), json!({"phase": "warm-up"})),
+				}
+			}
+		}
 		drop(held);
 		if let Err(f) = r {
 			// single-threaded: a full map here cannot be the concurrent skip of the size check
@@ -1413,6 +1472,7 @@ fn conc_child(plan: &Plan, dir: &Path) -> Value {
 		}
 		warm += 1;
 	}
+	WARM_ACTIVE.store(false, Ordering::SeqCst);
 	let warm_resizes = map_sizes.len() - 1;
 	// ---- concurrent phase
 	let mut handles = vec![];
@@ -1811,6 +1871,7 @@ pub fn child(args: &[String]) -> i32 {
 		"conc" => {
 			let Some(plan) = std::fs::read_to_string(&args[1]).ok().and_then(|s| serde_json::from_str::<Plan>(&s).ok()) else { return 3 };
 			let Some(out) = args.get(3) else { return 2 };
+			let _ = REPORT_PATH.set(PathBuf::from(out));
 			let rep = match catch(|| conc_child(&plan, &dir)) {
 				Ok(v) => v,
 				Err(f) => json!({"status": "fail", "sig": f.sig, "msg": f.msg, "stats": {}}),
